@@ -2,7 +2,7 @@
 TLC enumerates descriptor lists x names with the verdict of ScxmlChart!NameMatch
 (spec/MC_NameMatch.tla); the table is replayed through uscxml::nameMatch and the
 copy of the matcher shipped in test/src/test-gen-c.cpp (harness/fn_replay)."""
-import json, os, random, re, shutil, time
+import collections, json, os, random, re, shutil, time
 from vlib import *
 
 
@@ -87,6 +87,59 @@ def static_resolution(vecs, names, wd, tier, rnd):
         exp = set(".".join(names[i - 1]) for i in v["m"])
         for nm in sorted(got ^ exp):
             diffs.append(("promela-static", text, nm, 1 if nm in exp else 0, 1 if nm in got else 0))
+    # --- the same for the event signals in the emitted VHDL equation of transition 0
+    import vhdl as vhdlmod
+    vcand = cand if tier != "quick" else cand[:200]
+    batches = [open(os.path.join(gen, "v%02d.batch" % i), "wb") for i in range(nsh)]
+    for k, v in enumerate(vcand):
+        text = " ".join(render_desc(d) for d in v["d"])
+        doc = ('<scxml xmlns="http://www.w3.org/2005/07/scxml" version="1.0" datamodel="null" name="m">'
+               '<state id="s0"><transition event="%s" target="s1"/><transition event="%s" target="s1"/></state>'
+               '<state id="s1"/></scxml>' % (text, allnames)).encode()
+        batches[k % nsh].write(("DOC w%d vhdl %d\n" % (k, len(doc))).encode() + doc + b"\n")
+    for b in batches:
+        b.close()
+    run_parallel([[os.path.join(BIN, "xform"), os.path.join(gen, "v%02d.batch" % i), gen] for i in range(nsh)])
+    for k, v in enumerate(vcand):
+        p_ = os.path.join(gen, "w%d.vhdl" % k)
+        text = " ".join(render_desc(d) for d in v["d"])
+        if not os.path.exists(p_):
+            diffs.append(("vhdl-static", text, "*", 0, -1))
+            continue
+        src = open(p_, errors="replace").read()
+        q = vhdlmod.extract(src, [])
+        eq = next((e["e"] for e in q["eqs"] if e["n"] == "in_optimal_transition_set_0_sig"), None)
+        if eq is None:
+            diffs.append(("vhdl-static", text, "*", 0, -1))
+            continue
+        sigs = set()
+        vhdlmod.signals_of(eq, sigs)
+        sigs = set(x for x in sigs if x.startswith("event_"))
+        # signal of a name: event_<alnum>_sig, or event_<alnum>_<h>_sig with h depending on the dropped characters only
+        suffixes = sorted(set(re.findall(r"signal event_\w+?_(\d+)_sig", src)))
+        best = None
+        import itertools as it
+        for assign in it.product(suffixes or [""], repeat=2):
+            h = {1: assign[0], 2: assign[1]}
+            m = {}
+            for nm in nameset:
+                al = nm.replace(".", "")
+                dots = nm.count(".")
+                m[nm] = "event_%s_sig" % al if dots == 0 else "event_%s_%s_sig" % (al, h[dots])
+            if all(("signal %s " % sg) in src for sg in m.values()):
+                best = m
+                break
+        if best is None:
+            diffs.append(("vhdl-static", text, "?signals", 0, -1))
+            continue
+        # escapeMacro maps some different names to one signal (a.b.ab / ab.a.b): only names with a signal of their own are judged
+        cnt = collections.Counter(best.values())
+        inv = {sg: nm for nm, sg in best.items() if cnt[sg] == 1}
+        judged = set(inv.values())
+        got = set(inv[x] for x in sigs if x in inv)
+        exp = set(".".join(names[i - 1]) for i in v["m"]) & judged
+        for nm in sorted(got ^ exp):
+            diffs.append(("vhdl-static", text, nm, 1 if nm in exp else 0, 1 if nm in got else 0))
     shutil.rmtree(gen, ignore_errors=True)
     return diffs, len(cand)
 
